@@ -345,3 +345,88 @@ Definition rendered (plus resolver : bool) (k : bkind) (entry : list string * bo
       let endps := if external && negb resolver then [] else endps in
       if negb plus && is_nil endps then [placeholder k] else endps
   end.
+
+(* ====================== resource level: every backend of one resource ====================== *)
+
+(* ---------- createIngressEx ---------- *)
+(* The Go function declares  var endps []string  ONCE, outside the loop over the backends, and
+   stores  ingEx.Endpoints[key] = endps  at the end of every iteration.  The body of an
+   iteration is modelled as an optional assignment to that variable; a path through the body
+   that assigned nothing would store the value the previous backend left there.
+   [ingress_assign]: the body for one backend -- (what is assigned to endps, ExternalNameSvcs). *)
+Definition ingress_assign (fx : Fixes) (plus : bool) (c : Cluster) (ns : string) (b : Backend)
+  : option (list string) * bool :=
+  match find_svc c ns (b_svc b) with
+  | None =>
+      (* getServiceForIngressBackend failed: svc == nil, podEndps is the empty slice of this
+         iteration, the else branch assigns getIPAddressesFromEndpoints(podEndps) *)
+      (Some (addr_list fx []), false)
+  | Some svc =>
+      let r := eps_for_backend fx plus c svc (b_port b) in
+      if negb (is_external r) && b_clusterip b
+      then (Some [join (s_clusterIP svc) (clusterip_port svc (b_port b))], false)
+      else (Some (addrs_of fx r), is_external r && plus)
+  end.
+
+(* the loop: [endps] is the function-scoped variable; the result lists what was stored per backend *)
+Fixpoint ingress_loop (fx : Fixes) (plus : bool) (c : Cluster) (ns : string) (endps : list string)
+         (bs : list Backend) : list (list string * bool) :=
+  match bs with
+  | [] => []
+  | b :: rest =>
+      let '(a, ext) := ingress_assign fx plus c ns b in
+      let endps' := match a with Some v => v | None => endps end in
+      (endps', ext) :: ingress_loop fx plus c ns endps' rest
+  end.
+
+(* ---------- createVirtualServerEx: the Endpoints map ---------- *)
+(* GenerateEndpointsKey(namespace of the OWNER of the upstream, service, subselector, port); the
+   key is kept as the tuple it is printed from *)
+Definition ep_key := (string * string * labels * Z)%type.
+
+Definition key_of (ns : string) (b : Backend) : ep_key := (ns, b_svc b, b_subsel b, bp_num (b_port b)).
+
+Definition labels_eqb (a b : labels) : bool :=
+  (List.length a =? List.length b)%nat &&
+  forallb (fun p => String.eqb (fst (fst p)) (fst (snd p)) && String.eqb (snd (fst p)) (snd (snd p))) (combine a b).
+
+Definition key_eqb (a b : ep_key) : bool :=
+  let '(n1, s1, l1, p1) := a in
+  let '(n2, s2, l2, p2) := b in
+  String.eqb n1 n2 && String.eqb s1 s2 && labels_eqb l1 l2 && (p1 =? p2).
+
+(* a Go map written in list order: the last write of a key wins *)
+Fixpoint map_get {V} (k : ep_key) (m : list (ep_key * V)) : option V :=
+  match m with
+  | [] => None
+  | (k', v) :: r => match map_get k r with
+                    | Some v' => Some v'
+                    | None => if key_eqb k k' then Some v else None
+                    end
+  end.
+
+(* upstreams of the VirtualServer (its namespace) and of its VirtualServerRoutes (their own
+   namespaces), in the order createVirtualServerEx walks them: (owner namespace, upstream) *)
+Definition vs_entries (fx : Fixes) (plus : bool) (c : Cluster) (ups : list (string * Backend))
+  : list (ep_key * (list string * bool)) :=
+  map (fun u => (key_of (fst u) (snd u), endpoints_entry fx plus c (fst u) (snd u))) ups.
+
+(* what the generators and createUpstreamsForPlus read for the upstream [b] owned by namespace [ns] *)
+Definition vs_entry_of (fx : Fixes) (plus : bool) (c : Cluster) (ups : list (string * Backend))
+           (ns : string) (b : Backend) : list string * bool :=
+  match map_get (key_of ns b) (vs_entries fx plus c ups) with
+  | Some e => e
+  | None => ([], false)
+  end.
+
+(* ---------- the NGINX Plus API write (endpoints-only update) ---------- *)
+(* updatePlusEndpoints / updatePlusEndpointsForVirtualServer / ...ForTransportServer: the servers
+   given to UpdateServersInPlus / UpdateStreamServersInPlus for the upstream of a backend; None =
+   no call (NGINX OSS; ExternalName services of Ingresses and VirtualServers are skipped) *)
+Definition pushed (plus : bool) (k : bkind) (entry : list string * bool) : option (list string) :=
+  if plus then
+    match k with
+    | KTS => Some (fst entry)
+    | _ => if snd entry then None else Some (fst entry)
+    end
+  else None.
